@@ -212,6 +212,7 @@ struct State {
   unsigned call_cnt[C_NCALLS][3];
   std::unordered_set<uint64_t> states;
   int nworkers_created = 0;
+  std::unordered_map<const void *, int> objid;   // address-independent ids for the history hash
   std::vector<std::string> argv_copy;
   std::vector<char *> argv_ptrs;
 };
@@ -262,6 +263,15 @@ static inline void ev(int op, int64_t a, int64_t r) {
   R.ihash = fnv(R.ihash, (uint64_t)(c * 64 + op));
   if (S->plan->trace && R.events.size() < 2000000)
     R.events.push_back({(uint32_t)R.steps, (uint16_t)S->cur, (uint8_t)c, (uint8_t)op, a, r});
+}
+
+// ids in order of first appearance: the history hash must not depend on link addresses
+static inline int64_t oid(const void *p) {
+  auto it = S->objid.find(p);
+  if (it != S->objid.end()) return it->second;
+  int id = (int)S->objid.size() + 1;
+  S->objid[p] = id;
+  return id;
 }
 
 // ------------------------------------------------------------------ context switching
@@ -392,7 +402,10 @@ static void schedule_point(int op, int64_t a) {
   if (s.plan->monitors) check_monitors();
   inject_signals();
   if (s.fault_seen && me >= 0 && s.F[me].cls == FC_MAIN) R.main_steps_after_fault++;
-  uint64_t budget = s.plan->step_budget ? s.plan->step_budget : 5000000;
+  // step budget: the static part comes from the plan (input shape), the dynamic part grows with
+  // the I/O calls actually made, so that fragmentation cannot fake a livelock while a spinning
+  // scheduler (steps without I/O) still exhausts it
+  uint64_t budget = (s.plan->step_budget ? s.plan->step_budget : 5000000) + 100ull * (s.call_cnt[C_READ][R_ANY] + s.call_cnt[C_WRITE][R_ANY]);
   if (R.steps > budget) end_run(X_BUDGET, 0);
 
   const Sched &sc = s.plan->sched;
@@ -619,7 +632,7 @@ void verif_limits(int mode, size_t *in_g, size_t *out_g) { SHIM;
 void verif_task(const char *name, int begin) { SHIM;
   if (begin) {
     S->res->reach[std::string("task.") + name]++;
-    ev(OP_TASK, (int64_t)(uintptr_t)name, 0);   // static string: address is stable
+    ev(OP_TASK, (int64_t)hash_bytes(name, strlen(name)), 0);
     if (S->plan->trace && S->res->tasks.size() < 1000000) S->res->tasks.push_back({(uint32_t)S->res->steps, (uint16_t)S->cur, name});
   }
   if (S->plan->monitors) check_monitors();
@@ -661,7 +674,7 @@ int simw_pthread_mutex_lock(pthread_mutex_t *m) { SHIM;
   Mutex &M = S->mtx[m];
   M.owner = S->cur;
   TS_ACQ(m);
-  ev(OP_LOCK, (int64_t)(uintptr_t)m, 0);
+  ev(OP_LOCK, oid(m), 0);
   return 0;
 }
 int simw_pthread_mutex_unlock(pthread_mutex_t *m) { SHIM;
@@ -682,7 +695,7 @@ int simw_pthread_cond_wait(pthread_cond_t *c, pthread_mutex_t *m) { SHIM;
   }
   TS_REL(m);
   M.owner = -1;
-  ev(OP_WAIT, (int64_t)(uintptr_t)c, 0);
+  ev(OP_WAIT, oid(c), 0);
   S->F[S->cur].cond_mutex = m;
   block_on(ST_COND, c, OP_WAIT, 0);     // becomes ST_MUTEX when signalled, ST_RUN when it has the mutex
   S->mtx[m].owner = S->cur;
@@ -706,14 +719,14 @@ int simw_pthread_cond_signal(pthread_cond_t *c) { SHIM;
     woke = (int)v;
   }
   if (woke >= 0) wake_one(woke);
-  ev(OP_SIGNAL, (int64_t)(uintptr_t)c, woke);
+  ev(OP_SIGNAL, oid(c), woke);
   return 0;
 }
 int simw_pthread_cond_broadcast(pthread_cond_t *c) { SHIM;
   State &s = *S;
   int n = 0;
   for (int k = 0; k < s.nf; k++) if (s.F[k].state == ST_COND && s.F[k].obj == c) { wake_one(k); n++; }
-  ev(OP_BCAST, (int64_t)(uintptr_t)c, n);
+  ev(OP_BCAST, oid(c), n);
   return 0;
 }
 void simw_flockfile(FILE *f) { SHIM;
@@ -1214,9 +1227,6 @@ static void check_monitors() {
   Result &R = *s.res;
   if (!R.monitor.empty()) return;
   char b[200];
-  if (work_units > num_worker && num_worker) { snprintf(b, sizeof b, "counter: work_units=%u exceeds num_worker=%u", work_units, num_worker); R.monitor = b; }
-  else if (in_slots > total_in_slots && total_in_slots) { snprintf(b, sizeof b, "counter: in_slots=%u exceeds total_in_slots=%u", in_slots, total_in_slots); R.monitor = b; }
-  else if (out_slots > total_out_slots && total_out_slots) { snprintf(b, sizeof b, "counter: out_slots=%u exceeds total_out_slots=%u", out_slots, total_out_slots); R.monitor = b; }
   struct verif_q q[24];
   long st[3][8] = {};
   unsigned n = 0;
@@ -1225,6 +1235,15 @@ static void check_monitors() {
   n += verif_probe_process(q + n, 8, st[0]);
   n += verif_probe_compress(q + n, 8, st[1]);
   n += verif_probe_expand(q + n, 8, st[2]);
+  // counter ranges: only while the compression/decompression scheduler owns the counters.  In
+  // -cdf copy mode out_slots is a modulo-2^32 balance used for termination only (it transiently
+  // wraps below zero when the reader reuses a buffer before the writer has re-credited it; the
+  // buffers themselves are bounded by in_slots), so no range is implied there.
+  if (st[0][2] == 1 || st[0][2] == 2) {
+    if (work_units > num_worker && num_worker) { snprintf(b, sizeof b, "counter: work_units=%u exceeds num_worker=%u", work_units, num_worker); R.monitor = b; }
+    else if (in_slots > total_in_slots && total_in_slots) { snprintf(b, sizeof b, "counter: in_slots=%u exceeds total_in_slots=%u", in_slots, total_in_slots); R.monitor = b; }
+    else if (out_slots > total_out_slots && total_out_slots) { snprintf(b, sizeof b, "counter: out_slots=%u exceeds total_out_slots=%u", out_slots, total_out_slots); R.monitor = b; }
+  }
   uint64_t h = fnv(fnv(fnv(1469598103934665603ull, work_units), in_slots), out_slots);
   for (unsigned i = 0; i < n; i++) {
     h = fnv(h, q[i].size);
